@@ -218,14 +218,16 @@ against the frame's own file name), C20-R4 (simple mode prints
 passes a handler - found F26), C20-R11 (no empty literal from a method whose
 result is subscripted), C20-R12 (no lossy re-encoding).
 
-**Refactor twins (false-alarm test).** Three further rounds of twenty sub-agents,
+**Refactor twins (false-alarm test).** Four further rounds of twenty sub-agents,
 again given only a property record and a scratch worktree, each wrote four
 behaviour-preserving changes of different kinds to the code named in the
 property's anchors (rename private names, extract / inline a helper,
 restructure control flow, reorder / split statements, equivalent idioms,
 modernise); the second and third of these rounds were asked for other
 functions and files than the earlier ones (the third for the code one step
-away from the anchors, which is where the round-4 rules look). All keep the suite at baseline and are kept as
+away from the anchors, which is where the round-4 rules look, the fourth for
+rewrites of whole functions - table for if-chain, comprehension for loop,
+orchestrator over helpers, lambda for closure). All keep the suite at baseline and are kept as
 `/verif/twins/<ID>-<n>.diff` (%d in all). Run against all 20 checks, the
 round-1/2 rules raised an alarm on 26 of the first 80 - every one a defect of
 the *checker* (a rule tied to a name, to one syntactic form, or to one
@@ -240,9 +242,12 @@ that looks for a construct in a function also looks through the private
 helpers that function calls on `self`. Taint findings are keyed by (class,
 kind of source -> kind of sink) so that extracting a helper or renaming a
 local does not turn a known finding into a new one. %s
-`tools/twins_all.py` runs every check against every twin in memory (1600+
-runs, about six minutes on 16 cores); the twins of each property are also
-part of that property's thorough self-test.
+`tools/twins_all.py` runs every check against every twin in memory (6400
+runs, about forty minutes on 16 cores); the twins of each property are also
+part of that property's thorough self-test.  `tools/cross_all.py` applies every
+kept seed on top of every kept twin of its property (where the patches compose)
+and demands that the seed is still reported: detection must survive a refactor,
+not only silence.
 
 Findings the sub-agents reported about the *unchanged* tree while looking for
 seeds (cross-checked): markup in messages / file names makes `run()` raise
